@@ -115,7 +115,10 @@ class AceGroup(AceBase, Group):
                 if isinstance(other, Ace):
                     return False
                 if isinstance(other, AceGroup):
-                    return str(self) < str(other)
+                    # by the number of the 1st item (as number, not as text), then by text
+                    seq_self = self._items[0].sequence if self._items else 0
+                    seq_other = other.items[0].sequence if other.items else 0
+                    return (seq_self, str(self)) < (seq_other, str(other))
                 raise TypeError(f"{other=} {AceGroup} expected")
             return self._sequence < other.sequence
         return False
